@@ -72,7 +72,7 @@ type c12World struct {
 	Prices      map[uint64]uint64
 
 	// asset ids / denoms
-	CMDX, CMST, ATOM, HARBOR, USDC, CCMDX, CATOM, CCMST uint64
+	CMDX, CMST, ATOM, HARBOR, USDC, CCMDX, CATOM, CCMST, XTKN uint64
 }
 
 const (
@@ -84,6 +84,7 @@ const (
 	c12DenomCCMDX  = "uccmdx"
 	c12DenomCATOM  = "ucatom"
 	c12DenomCCMST  = "uccmst"
+	c12DenomXTKN   = "uxtkn"
 
 	c12BlockSeconds = 6
 )
@@ -93,8 +94,12 @@ func c12Coin(denom string, amt int64) sdk.Coin { return sdk.NewCoin(denom, sdk.N
 func c12Dec(s string) sdk.Dec { return sdk.MustNewDecFromStr(s) }
 
 func c12AddApp(t *testing.T, a *chain.App, ctx sdk.Context, name, short string) uint64 {
+	return c12AddAppTok(t, a, ctx, name, short, []assettypes.MintGenesisToken{})
+}
+
+func c12AddAppTok(t *testing.T, a *chain.App, ctx sdk.Context, name, short string, toks []assettypes.MintGenesisToken) uint64 {
 	err := a.AssetKeeper.AddAppRecords(ctx, assettypes.AppData{Name: name, ShortName: short, MinGovDeposit: sdk.NewInt(0), GovTimeInSeconds: 0,
-		GenesisToken: []assettypes.MintGenesisToken{}})
+		GenesisToken: toks})
 	if err != nil {
 		t.Fatalf("c12 AddAppRecords %s: %v", name, err)
 	}
@@ -172,15 +177,6 @@ func c12SetupN(t *testing.T, a *chain.App, ctx sdk.Context, nOwners int) []*c12W
 	ord := c12OrdersFor(nOwners)
 	views := make([]*c12World, nOwners)
 
-	// ---------- apps (commodo must be app 3: lend hard-codes app id 3 in RemoveFaultyAuctions) ----------
-	harbor := c12AddApp(t, a, ctx, "harbor", "harbor")
-	cswap := c12AddApp(t, a, ctx, "cswap", "cswap")
-	commodo := c12AddApp(t, a, ctx, "commodo", "cmmdo")
-	if commodo != 3 {
-		t.Fatalf("c12Setup: commodo app id %d, want 3", commodo)
-	}
-	w.VaultApp, w.LockerApp, w.LiqApp, w.LendApp = harbor, harbor, cswap, commodo
-
 	// ---------- assets and prices ----------
 	w.CMDX = addAsset(t, a, ctx, "CMDX", c12DenomCMDX, 1000000, true, false)
 	w.CMST = addAsset(t, a, ctx, "CMST", c12DenomCMST, 1000000, true, true)
@@ -190,11 +186,26 @@ func c12SetupN(t *testing.T, a *chain.App, ctx sdk.Context, nOwners int) []*c12W
 	w.CCMDX = addAsset(t, a, ctx, "CCMDX", c12DenomCCMDX, 1000000, false, false)
 	w.CATOM = addAsset(t, a, ctx, "CATOM", c12DenomCATOM, 1000000, false, false)
 	w.CCMST = addAsset(t, a, ctx, "CCMST", c12DenomCCMST, 1000000, false, false)
+	w.XTKN = addAsset(t, a, ctx, "XTKN", c12DenomXTKN, 1000000, false, false)
 	for _, p := range []struct{ id, price uint64 }{{w.CMDX, 2000000}, {w.CMST, 1000000}, {w.ATOM, 10000000}, {w.USDC, 1000000}} {
 		setPrice(a, ctx, p.id, p.price, true)
 		w.PriceAssets = append(w.PriceAssets, p.id)
 		w.Prices[p.id] = p.price
 	}
+
+	// ---------- apps (commodo must be app 3: lend hard-codes app id 3 in RemoveFaultyAuctions) ----------
+	// harbor has a governance token (HARBOR, needed by the esm deposit / surplus-auction burn paths) and a second genesis
+	// token (XTKN) that nobody has minted yet: tokenmint.MsgMintNewTokens has work to do on it.  The genesis supply of
+	// HARBOR itself is minted to the LP by the extended fixture (c12xSetup), not here.
+	harbor := c12AddAppTok(t, a, ctx, "harbor", "harbor", []assettypes.MintGenesisToken{
+		{AssetId: w.HARBOR, GenesisSupply: sdk.NewInt(1_000_000_000_000), IsGovToken: true, Recipient: w.LP.String()},
+		{AssetId: w.XTKN, GenesisSupply: sdk.NewInt(1_000_000_000), IsGovToken: false, Recipient: w.LP.String()}})
+	cswap := c12AddApp(t, a, ctx, "cswap", "cswap")
+	commodo := c12AddApp(t, a, ctx, "commodo", "cmmdo")
+	if commodo != 3 {
+		t.Fatalf("c12Setup: commodo app id %d, want 3", commodo)
+	}
+	w.VaultApp, w.LockerApp, w.LiqApp, w.LendApp = harbor, harbor, cswap, commodo
 
 	// ---------- accounts ----------
 	rich := sdk.NewCoins(c12Coin(c12DenomCMDX, 1_000_000_000_000), c12Coin(c12DenomCMST, 1_000_000_000_000), c12Coin(c12DenomATOM, 1_000_000_000_000),
